@@ -265,6 +265,27 @@ def judge_td(d, wm, res):
         if nz:
             res["nontrivial"] += 1
         res["fps"].add(fp(float(p[1]), float(p[2])))
+        # spectral power lines: one-sided line = V*conj(I)/2 of the element's own voltage and current lines; two-sided line =
+        # c_V*conj(c_I) of the two-sided lines (so that the lines at +-w add up to the mean power of that frequency)
+        from CircuitCalculator.Circuit.solution import FrequencyDomainSolution
+        bump(res["hits"], "power_formula_spectrum")
+        for one_sided in (True, False):
+            fds = FrequencyDomainSolution(circuit=adapt.circuit(d), w_max=float(F(wm)), one_sided=one_sided)
+            for c in comps:
+                _, Xv = fds.get_voltage(c[1])
+                _, Xi = fds.get_current(c[1])
+                w_, Xp = fds.get_power(c[1])
+                Xv, Xi, Xp = np.asarray(Xv, complex), np.asarray(Xi, complex), np.asarray(Xp, complex)
+                # (the line at w = 0 is left out: whether a DC "peak phasor" carries the factor 1/2 is a convention the statement
+                # only fixes for ComplexSolution, not for spectra)
+                ac = np.asarray(w_, float) != 0
+                exp = np.where(ac, (0.5 if one_sided else 1.0) * Xv * np.conj(Xi), Xp if Xp.shape == Xv.shape else 0)
+                sc = max(np.abs(Xv).max() * np.abs(Xi).max(), 1e-300)
+                if Xp.shape != exp.shape or np.abs(Xp - exp).max() > 1e-9 * sc:
+                    k = int(np.argmax(np.abs(Xp - exp))) if Xp.shape == exp.shape else 0
+                    add_violation(res, "power_formula_spectrum", dict(case, element=c[1], one_sided=one_sided, w=float(np.asarray(w_, float)[k])), complex(exp[k]), complex(Xp[k]) if Xp.shape == exp.shape else list(Xp.shape),
+                                  "%s power line of %s is not the product of its own voltage and (conjugate) current lines" % ("one-sided" if one_sided else "two-sided", c[1]))
+                    return
     except Exception as e:
         add_violation(res, "power_formula_time", case, "time-domain power", "%s: %s" % (type(e).__name__, e), "raised", kind="exception:" + type(e).__name__)
 
